@@ -194,6 +194,7 @@ def glue_events(names: int, prefixes: int, datatypes: int, npfx: int, nnames: in
             evs.append(("lit", f"http://p0/n{i}"))
     if datatypes:
         evs.append(("langlit",))  # "x"@en given together with rdf:langString: no table entry
+        evs.append(("glit", f"http://p0/n{datatypes + 1}"))  # a typed literal as graph name
     evs.append(("opt",))  # the writer repeats its (identical) options row mid-stream
     if prefixes:
         # one row that holds an IRI and a quoted triple: more IRIs per row than any plain row
@@ -226,6 +227,16 @@ def step2(st: Glue, ev) -> list[str]:
             got = st.dec.decode_iri(msg)
             if got._iri != ev[1]:
                 fails.append(f"IRI {ev[1]!r} decodes to {got._iri!r}")
+        elif ev[0] == "glit":
+            from pyjelly.integrations.generic import generic_sink as gs  # noqa: PLC0415
+
+            quad = jelly.RdfQuad()
+            rows = st.enc.encode_graph(gs.Literal("g", None, ev[1]), quad)
+            for r in rows:
+                st.dec.decode_row(getattr(r, r.WhichOneof("row")))
+            got = st.dec.decode_literal(quad.g_literal)
+            if got._datatype != ev[1]:
+                fails.append(f"graph-name literal typed {ev[1]!r} decodes to {got._datatype!r}")
         elif ev[0] == "langlit":
             msg = jelly.RdfLiteral()
             rows = st.enc.encode_literal(
@@ -463,7 +474,50 @@ def run_recut(case: dict) -> list[str]:
     return fails
 
 
+def run_no_options(case: dict) -> list[str]:
+    """Stream objects built without options / preset arguments: whatever defaults apply, the
+    table sizes in the options row are the sizes the encoder works with."""
+    import io  # noqa: PLC0415
+
+    from mc import drivers as DR  # noqa: PLC0415
+    from mc import jspec  # noqa: PLC0415
+    from mc import terms as T  # noqa: PLC0415
+    from mc.terms import I, L  # noqa: PLC0415
+    from pyjelly.serialize import streams  # noqa: PLC0415
+    from pyjelly.serialize.ioutils import write_delimited  # noqa: PLC0415
+
+    api = case["api"]
+    if api == "rdflib":
+        stream = streams.TripleStream.for_rdflib()
+    else:
+        from pyjelly.integrations.generic.serialize import GenericSinkTermEncoder  # noqa: PLC0415
+
+        stream = streams.TripleStream(encoder=GenericSinkTermEncoder())
+    conv = T.st_to_generic if api == "generic" else T.st_to_rdflib
+    seq = [(I(f"http://p{i % 60}.example/n{i}"), I("http://p0.example/p"),
+            L(str(i), None, f"http://d.example/t{i % 40}")) for i in range(400)]
+    out = io.BytesIO()
+    stream.enroll()
+    for st in seq:
+        fr = stream.triple(conv(st))
+        if fr is not None:
+            write_delimited(fr, out)
+    fr = stream.flow.to_stream_frame()
+    if fr is not None:
+        write_delimited(fr, out)
+    try:
+        _, per = jspec.decode_bytes(out.getvalue())
+    except jspec.SpecViolation as e:
+        return [f"stream built without options ({api}): its rows violate its own options row: {e}"]
+    got = [T.norm_st(x) for x in jspec.statements(per)]
+    if got != T.norm_seq(seq):
+        return [f"stream built without options ({api}): decodes to other statements"]
+    return []
+
+
 def run_declared(case: dict) -> list[str]:
+    if case["rule"] == "no-options":
+        return run_no_options(case)
     if case["rule"] == "grouped-restart":
         return run_grouped_restart(case)
     if case["rule"] == "recut":
@@ -499,6 +553,9 @@ def shard4(job) -> dict:
         n = 0
     if rule == "recut":
         case = {"layer": 4, "rule": rule, "n": 0, "sub": n}
+        n = 0
+    if rule == "no-options":
+        case = {"layer": 4, "rule": rule, "n": 0, "api": n}
         n = 0
     acc.evals = n + 5
     for msg in run_declared(case):
@@ -551,6 +608,8 @@ def run(ctx) -> None:
         jobs.append(("l4", ("grouped-restart", (api, cls))))
     for sub in ("name", "prefix", "datatype"):
         jobs.append(("l4", ("recut", sub)))
+    for api in ("generic", "rdflib"):
+        jobs.append(("l4", ("no-options", api)))
     # biggest first so the pool stays busy
     def weight(j):
         if j[0] == "l1":
